@@ -15,6 +15,7 @@ From RU Require Import Base.Prelude Base.Utf8 Base.Utf8Facts Model.AsciiSet Gen.
 From RU Require Import Model.Host Proofs.C09_Host Proofs.C16_RT6Model.
 From RU Require Import Model.FormUrlencoded Model.QueryPairs Proofs.C02_Form Proofs.C02_SetCred Proofs.C02_SetCredCanon Proofs.C02_QPort Proofs.C02_Reach3.
 From RU Require Proofs.C15_Ser.
+From RU Require Import Proofs.C02_SetHostFrame Proofs.C02_SetHostCanon Proofs.C02_SetScheme Proofs.C02_PathSetter Proofs.C02_SetPath Proofs.C02_Reach4.
 Open Scope string_scope.
 Open Scope N_scope.
 Open Scope list_scope.
@@ -822,6 +823,196 @@ Example C02_qpm_inhabited :
                  && match parse_url true ex_hp ex_hp ex_hd None None (ser u) with POk v => url_eqb v u | _ => false end
      | None => false end = true.
 Proof. exact qpm_example. Qed.
+
+(* ---------- L. L2 for the host, scheme and path setters; ReachC3; the full statement is false as stated ---------- *)
+(* L.1  Url::set_host_internal computed on the canonical record with authority, for every new host value and both
+   callers (opt_new_port = None: set_host / set_ip_host / quirks hostname; Some np: quirks host): the host text (and
+   the port) is replaced, nothing else; and on a record without authority and without the "/." marker: "//" host is
+   inserted *)
+Theorem C02_set_host_internal_shape : forall dbg hd sch ui h pt p q f h' onp,
+  set_host_internal dbg hd (auth_url hd sch ui h pt p q f) h' onp
+  = Some (auth_url hd sch ui h' (match onp with Some np => np | None => pt end) p q f).
+Proof. exact set_host_internal_auth. Qed.
+Print Assumptions C02_set_host_internal_shape.
+
+Theorem C02_set_host_internal_shape_noauth : forall dbg hd sch segs last q f h' onp,
+  UrlRecord.starts_with s_ss (path_text segs last) = false ->
+  set_host_internal dbg hd (noauth_url sch (path_text segs last) q f) h' onp
+  = Some (auth_url hd sch UNone h' (match onp with Some np => np | None => None end) (Some (segs, last)) q f).
+Proof. exact set_host_internal_noauth. Qed.
+Print Assumptions C02_set_host_internal_shape_noauth.
+
+(* L.2  L2 for Url::set_ip_host and Url::set_host(Some _): on every Canon record, outside the known step classes
+   (F-C03-5 marker, F-C02-4 empty host on a URL with credentials or port, F-C02-9 IPv4 on a non-special scheme), the
+   result is Canon.  host_nonempty (only the empty text parses to the empty host) is one more hypothesis on the host
+   functions than HostOK2; it holds of the host model for every IDNA function (C02_host_nonempty_model) *)
+Theorem C02_set_ip_host_Canon : forall dbg hp hpo hd, HostRT hp hpo hd -> host_above hp hpo hd -> forall u h' u' s,
+  ip_clause hp hpo hd -> Canon hp hpo hd u -> op_args_ok (OSetIpHost h') ->
+  known_step2 dbg hp hpo hd u (OSetIpHost h') = false ->
+  set_ip_host dbg hd u h' = Some (u', s) -> nlen (ser u') <= U32_MAX_P -> Canon hp hpo hd u'.
+Proof. exact set_ip_host_Canon. Qed.
+Check C02_set_ip_host_Canon : forall dbg hp hpo hd, HostRT hp hpo hd -> host_above hp hpo hd -> forall u h' u' s,
+  ip_clause hp hpo hd -> Canon hp hpo hd u -> op_args_ok (OSetIpHost h') ->
+  known_step2 dbg hp hpo hd u (OSetIpHost h') = false ->
+  set_ip_host dbg hd u h' = Some (u', s) -> nlen (ser u') <= 4294967295 -> Canon hp hpo hd u'.
+Print Assumptions C02_set_ip_host_Canon.
+
+Theorem C02_set_host_some_Canon : forall dbg hp hpo hd, HostRT hp hpo hd -> host_above hp hpo hd -> forall u x u' s,
+  host_nonempty hp hpo -> Canon hp hpo hd u -> usv_list x ->
+  known_step2 dbg hp hpo hd u (OSetHost (Some x)) = false ->
+  set_host dbg hp hpo hd u (Some x) = Some (u', s) -> nlen (ser u') <= U32_MAX_P -> Canon hp hpo hd u'.
+Proof. exact set_host_some_Canon. Qed.
+Check C02_set_host_some_Canon : forall dbg hp hpo hd, HostRT hp hpo hd -> host_above hp hpo hd -> forall u x u' s,
+  ((forall t, hp t <> Ok (HDomain [])) /\ (forall t, usv_list t -> hpo t = Ok (HDomain []) -> t = [])) ->
+  Canon hp hpo hd u -> usv_list x ->
+  known_step2 dbg hp hpo hd u (OSetHost (Some x)) = false ->
+  set_host dbg hp hpo hd u (Some x) = Some (u', s) -> nlen (ser u') <= 4294967295 -> Canon hp hpo hd u'.
+Print Assumptions C02_set_host_some_Canon.
+
+Theorem C02_host_nonempty_model : forall idna, host_nonempty (host_parse idna) host_parse_opaque.
+Proof. exact host_nonempty_model. Qed.
+Print Assumptions C02_host_nonempty_model.
+
+(* L.3  L2 for Url::set_scheme and url::quirks::set_protocol: on every Canon record, for EVERY argument, the result is
+   Canon (the code keeps the scheme kind; the trailing set_port(previous port) drops a port that is the new scheme's
+   default: http://h:443/ -> https://h/) *)
+Theorem C02_set_scheme_Canon : forall dbg hp hpo hd u x u' s, Canon hp hpo hd u ->
+  set_scheme dbg u x = Some (u', s) -> nlen (ser u') <= U32_MAX_P -> Canon hp hpo hd u'.
+Proof. exact set_scheme_Canon. Qed.
+Check C02_set_scheme_Canon : forall dbg hp hpo hd u x u' s, Canon hp hpo hd u ->
+  set_scheme dbg u x = Some (u', s) -> nlen (ser u') <= 4294967295 -> Canon hp hpo hd u'.
+Print Assumptions C02_set_scheme_Canon.
+
+Theorem C02_q_set_protocol_Canon : forall dbg hp hpo hd u x u' s, Canon hp hpo hd u ->
+  q_set_protocol dbg u x = Some (u', s) -> nlen (ser u') <= U32_MAX_P -> Canon hp hpo hd u'.
+Proof. exact q_set_protocol_Canon. Qed.
+Print Assumptions C02_q_set_protocol_Canon.
+
+(* the scheme swap on the frame of all four forms (everything behind the scheme, offsets relative to its end) *)
+Theorem C02_set_scheme_shape : forall dbg sch Z due dhs dhe hi pt dps q f x r,
+  set_scheme dbg (sf_url sch Z due dhs dhe hi pt dps q f) x = Some r ->
+  r = (sf_url sch Z due dhs dhe hi pt dps q f, SErrUnit) \/
+  exists ns rem ha, parse_scheme CSetter (input_new_no_trim x) = Some (ns, rem)
+     /\ has_authority dbg (sf_url sch Z due dhs dhe hi pt dps q f) = Some ha
+     /\ st_is_special (scheme_type_of ns) = st_is_special (scheme_type_of sch)
+     /\ st_is_file (scheme_type_of ns) && ha = false
+     /\ exists r', set_port dbg (sf_url ns Z due dhs dhe hi pt dps q f) pt = Some r' /\ r = (fst r', SOk).
+Proof. exact set_scheme_sf. Qed.
+Print Assumptions C02_set_scheme_shape.
+
+(* L.4  the path start state in the SETTER context writes a canonical path behind any serialization, whatever the
+   argument ('?' and '#' come out as %3F / %23): L1 for the state Url::set_path runs *)
+Theorem C02_path_state_setter : forall dbg ser p hh s hh' rem, usv_list p ->
+  parse_path_start dbg CSetter STNotSpecial hh ser p = POk (s, hh', rem) ->
+  exists p', pth_ok p' /\ s = ser ++ pth_text p'.
+Proof. exact pps_setter_ns. Qed.
+Print Assumptions C02_path_state_setter.
+
+Theorem C02_path_state_setter_special : forall dbg ser p hh s hh' rem, usv_list p -> ends_with_byte 47 ser = false ->
+  parse_path_start dbg CSetter STSpecialNotFile hh ser p = POk (s, hh', rem) ->
+  exists segs last, forallb good_seg_sp segs = true /\ good_seg_sp last = true /\ s = ser ++ path_text segs last.
+Proof. exact pps_setter_sp. Qed.
+Print Assumptions C02_path_state_setter_special.
+
+(* the loop of the setter context is the loop of the URL-parser context on the argument with '?' -> "%3F", '#' -> "%23" *)
+Theorem C02_path_loop_setter : forall dbg st, st_is_file st = false -> forall ps l ser ss hh, usv_list l ->
+  parse_path_loop dbg CSetter st ps l ser ss [] hh = parse_path_loop dbg CUrlParser st ps (qh_sub l) ser ss [] hh.
+Proof. intros dbg st Hnf ps l ser ss hh Hu. exact (loop_setter_sub dbg st Hnf ps l ser ss [] [] hh Hu pend_eq_nil). Qed.
+Print Assumptions C02_path_loop_setter.
+
+(* L.5  L2 for Url::set_path and url::quirks::set_pathname on Canon records WITH an authority (classes (iii), (iv)),
+   for every argument.  NOT covered: records without authority (F-C02-8 / F-C03-5 live there) and opaque paths (F-C02-3) *)
+Theorem C02_set_path_Canon : forall dbg hp hpo hd u x u', Canon hp hpo hd u -> has_authority_b u = true -> usv_list x ->
+  set_path dbg u x = Some u' -> nlen (ser u') <= U32_MAX_P -> Canon hp hpo hd u'.
+Proof. exact set_path_Canon. Qed.
+Check C02_set_path_Canon : forall dbg hp hpo hd u x u', Canon hp hpo hd u -> has_authority_b u = true -> usv_list x ->
+  set_path dbg u x = Some u' -> nlen (ser u') <= 4294967295 -> Canon hp hpo hd u'.
+Print Assumptions C02_set_path_Canon.
+
+Theorem C02_q_set_pathname_Canon : forall dbg hp hpo hd u x u', Canon hp hpo hd u -> has_authority_b u = true -> usv_list x ->
+  q_set_pathname dbg u x = Some u' -> nlen (ser u') <= U32_MAX_P -> Canon hp hpo hd u'.
+Proof. exact q_set_pathname_Canon. Qed.
+Print Assumptions C02_q_set_pathname_Canon.
+
+(* L.6  C02_statement3 restricted to the histories of C02_reach_partial2 extended by set_ip_host, set_host(Some _),
+   set_scheme, quirks protocol (on every record) and set_path, quirks pathname (on records with an authority), each step
+   outside known_step2 (ReachC3; canon_op3): every record is a fixpoint of re-parsing, wf_b, ASCII.
+   Still missing for the (corrected) full statement: the file scheme, joins through the path arms of the relative state
+   and absolute references against a base, an encoding override on special schemes; set_host(None), path_segments_mut
+   sessions, quirks host / hostname (every class); set_path / quirks pathname on records without authority. *)
+Theorem C02_reach_partial3 : forall dbg hp hpo hd, HostOK2 hp hpo hd -> host_nonempty hp hpo -> forall u,
+  ReachC3 dbg hp hpo hd u -> Fixpoint_of_reparse dbg hp hpo hd u /\ wf_b u = true /\ ascii (ser u).
+Proof. exact reach_partial3. Qed.
+Check C02_reach_partial3 : forall dbg hp hpo hd, HostOK2 hp hpo hd -> host_nonempty hp hpo -> forall u,
+  ReachC3 dbg hp hpo hd u ->
+  parse_url dbg hp hpo hd None None (utf8_lossy (ser u)) = POk u /\ wf_b u = true /\ ascii (ser u).
+Print Assumptions C02_reach_partial3.
+
+Theorem C02_reach_partial3_in_statement : forall dbg hp hpo hd, HostOK2 hp hpo hd -> host_nonempty hp hpo -> forall u,
+  ReachC3 dbg hp hpo hd u -> Reachable3 dbg hp hpo hd u.
+Proof. exact ReachC3_Reachable3. Qed.
+Print Assumptions C02_reach_partial3_in_statement.
+
+Theorem C02_reach_partial3_extends : forall dbg hp hpo hd u, ReachC2 dbg hp hpo hd u -> ReachC3 dbg hp hpo hd u.
+Proof. exact ReachC2_C3. Qed.
+Print Assumptions C02_reach_partial3_extends.
+
+Theorem C02_reach_partial3_absolute : forall dbg hp hpo hd, HostOK2 hp hpo hd -> host_nonempty hp hpo -> forall u b,
+  ReachC3 dbg hp hpo hd u -> parse_url dbg hp hpo hd None (Some b) (utf8_lossy (ser u)) = POk u.
+Proof. exact reach3_absolute. Qed.
+Print Assumptions C02_reach_partial3_absolute.
+
+(* for the parser model linked with the host model the only premise about hosts is IdnaOK *)
+Theorem C02_reach_partial3_model : forall dbg idna, IdnaOK idna -> forall u,
+  ReachC3 dbg (host_parse idna) host_parse_opaque host_display u ->
+  Fixpoint_of_reparse dbg (host_parse idna) host_parse_opaque host_display u /\ wf_b u = true /\ ascii (ser u).
+Proof. exact reach_partial3_model. Qed.
+Print Assumptions C02_reach_partial3_model.
+
+(* non-vacuity, on the host model with idna_clean: http://u@h.x:443/a?q#f -> set_scheme("https") = https://u@h.x/a?q#f
+   -> set_host("example.org:99") = https://u@example.org/a?q#f -> set_path("b c/../d?e") = https://u@example.org/d%3Fe?q#f
+   -> set_ip_host(127.0.0.1) -> quirks pathname("x") = https://u@127.0.0.1/x?q#f ; a:/p -> set_host("h") -> set_scheme("b")
+   -> set_ip_host([::1]) = b://[::1]/p ; each is a fixpoint *)
+Example C02_reach_partial3_inhabited :
+  match m_hist "http://u@h.x:443/a?q#f" [OSetScheme (B "https")] with
+  | Some u => list_eqb (ser u) (B "https://u@h.x/a?q#f") && m_fix u | None => false end = true
+  /\ match m_hist "http://u@h.x:443/a?q#f" [OSetScheme (B "https"); OSetHost (Some (B "example.org:99"))] with
+     | Some u => list_eqb (ser u) (B "https://u@example.org/a?q#f") && m_fix u | None => false end = true
+  /\ match m_hist "http://u@h.x:443/a?q#f" [OSetScheme (B "https"); OSetHost (Some (B "example.org:99")); OSetPath (B "b c/../d?e")] with
+     | Some u => list_eqb (ser u) (B "https://u@example.org/d%3Fe?q#f") && m_fix u | None => false end = true
+  /\ match m_hist "http://u@h.x:443/a?q#f" [OSetScheme (B "https"); OSetHost (Some (B "example.org:99")); OSetPath (B "b c/../d?e");
+                                            OSetIpHost (HIpv4 2130706433); OQPathname (B "x")] with
+     | Some u => list_eqb (ser u) (B "https://u@127.0.0.1/x?q#f") && m_fix u | None => false end = true
+  /\ match m_hist "a:/p" [OSetHost (Some (B "h")); OSetScheme (B "b"); OSetIpHost (HIpv6 [0;0;0;0;0;0;0;1])] with
+     | Some u => list_eqb (ser u) (B "b://[::1]/p") && m_fix u | None => false end = true.
+Proof. exact reach3_example. Qed.
+
+(* L.7  FINDING: C02_statement and C02_statement3 are FALSE as stated.  The quantifier misses the class F-C07-8
+   (known to C07 as Known_C07 K7): url::quirks::set_host with an empty host on a URL that has a password and no user
+   name - quirks::set_host refuses an empty host when the URL has a username or a port but does not look at the
+   password (quirks::set_hostname does).  On the parser model linked with the host model (HostOK2 holds of it):
+   a://:pw@h/p -> quirks::set_host("") = a://:pw@/p, the step is outside known_step2, the result is not in
+   Known_file_drive, and its serialization does not parse (EmptyHost). *)
+Theorem C02_F_C07_8_witness :
+  parse_url true mhp host_parse_opaque host_display None None w10_input = POk w10_u0
+  /\ Known_file_drive w10_u0 = false
+  /\ known_step2 true mhp host_parse_opaque host_display w10_u0 w10_op = false
+  /\ apply_op true mhp host_parse_opaque host_display w10_u0 w10_op = Some w10_u1
+  /\ Known_file_drive w10_u1 = false
+  /\ list_eqb (ser w10_u1) (B "a://:pw@/p") = true
+  /\ match reparse true mhp host_parse_opaque host_display w10_u1 with PErr EmptyHost => true | _ => false end = true.
+Proof. exact w10_facts. Qed.
+Print Assumptions C02_F_C07_8_witness.
+
+Theorem C02_statement_refuted : ~ C02_statement.
+Proof. exact statement_refuted. Qed.
+Check C02_statement_refuted : ~ (forall dbg hp hpo hd, HostOK2 hp hpo hd ->
+  forall u, Reachable2 dbg hp hpo hd u -> Fixpoint_of_reparse dbg hp hpo hd u).
+Print Assumptions C02_statement_refuted.
+
+Theorem C02_statement3_refuted : ~ C02_statement3.
+Proof. exact statement3_refuted. Qed.
+Print Assumptions C02_statement3_refuted.
 
 (* ---------- F. every excluded class contains a history that is not a fixpoint ---------- *)
 Theorem C02_F_C03_5_refuted :
